@@ -881,6 +881,15 @@ def frame_obligations(eng, c, mods, entry_locals, pre_heap, module, tag):
             continue
         excl = [r != x for x in (al or [])]
         goal = z3.Implies(z3.And(r > 0, r <= alloc0, *excl), z3.Select(arr, r) == z3.Select(old, r))
+        # when the post-state array is syntactically a chain of stores over the pre-state array, the cells that can differ are
+        # exactly the stored-to references: state the same goal at those references (equivalent, and free of the skolem r under
+        # a store - the form on which the solvers answer "unknown" instead of producing the counter-model)
+        idxs, base = [], arr
+        while z3.is_store(base) and base.num_args() == 3:
+            idxs.append(base.arg(1))
+            base = base.arg(0)
+        if idxs and base.eq(old):
+            goal = z3.And(*[z3.substitute(goal, (r, ix)) for ix in idxs])
         eng.oblige("%s/frame%s:%s.%s" % (eng.cur_short, tag, owner, field), goal, "frame")
 
 
